@@ -38,6 +38,8 @@ TripSlices ==
                                                        dep |-> Some([time |-> Some(d), delay |-> Some(1), unc |-> Some(0)])]
                              IN {[BaseTrip EXCEPT !.stus = <<N(1, a, 5), N(2, 7, b), N(3, c, 9)>>] : a \in {5, 261}, b \in {5, 261, 517, 65541}, c \in {5, 261, 16777221}}
                                 \cup {[BaseTrip EXCEPT !.stus = <<N(1, 5, 5), N(2, 7, b), N(3, 8, c), N(4, 9, d)>>] : b \in {5, 261}, c \in {5, 261}, d \in {5, 261}}
+      [] Slice = "durations" -> {[BaseTrip EXCEPT !.st = x, !.stus = <<[BaseStu EXCEPT !.arr = Some([NoEv EXCEPT !.delay = a]), !.dep = Some([NoEv EXCEPT !.delay = b])]>>] :
+                                   x \in {0, 1, 10, 11, 13}, a \in OptOf({-1, 0, 1, 10, 11, 12, 13}), b \in OptOf({0, 11})}
       [] Slice = "stu2"   -> {[BaseTrip EXCEPT !.stus = <<BaseStu, a, b>>] : a \in {x \in Stus : x.sr = 0 /\ x.arr = None}, b \in {x \in Stus : x.seq = None /\ x.track = None}}
       [] Slice = "hdr2"   -> {[BaseTrip EXCEPT !.id = a, !.route = b, !.dir = d, !.hasSD = hd, !.sd = IF hd THEN 7 ELSE ZeroTime, !.hasST = ht, !.st = IF ht THEN st ELSE 0,
                                                !.stus = IF n = 0 THEN <<>> ELSE <<BaseStu>>] :
